@@ -1015,18 +1015,31 @@ class Walker:
         written = self.root_names(written, st)
         lp.assigned, lp.written = assigned, written
         entry_env = dict(st.env)
+        literal = isinstance(s, ast.For) and isinstance(s.iter, ast.Call) and all(isinstance(a_, ast.Constant) for a_ in s.iter.args)
+        if lp.kind in ("range", "prange") and lp.step == Lin.const(1) and not literal and test is None and isinstance(s, ast.For) \
+                and self.P.prove_le0(lp.stop - lp.start, st.facts):
+            # on this path the range is empty (the facts entail stop <= start): the loop is a no-op here, nothing is forgotten
+            if orelse:
+                return self.block(orelse, st)
+            return [(st, "fall", None)]
         self.emit("loopstart", s, st, loop=lp, envsnap=dict(st.env))
         head = st.copy()
         self.kill(head, assigned, written)
         # a loop-carried scalar keeps its machine type when every value that reaches the loop head has it (Numba unifies the types of
         # all definitions of a variable): assumed first, verified on the back edges below, dropped and re-walked otherwise
         keep_ty = {}
+        ranged_here = {}
         if self.func.is_kernel or self.root.is_kernel:
             for n_ in assigned:
                 v0, vh = st.env.get(n_), head.env.get(n_)
                 if isinstance(v0, Num) and v0.ty is not None and isinstance(vh, Num) and vh is not v0 and vh.ty is None and not v0.isfloat:
                     keep_ty[n_] = v0.ty
                     head.env[n_] = Num(vh.lin, isfloat=vh.isfloat, ty=v0.ty)
+                    # ... and with the type its value range (withdrawn below together with the type)
+                    t_ = vh.lin.single_term()
+                    if t_ is not None and vh.lin == Lin.term(t_) and t_ not in self.P.ranges and v0.ty.kind in ("uint", "int"):
+                        self.P.ranges[t_] = v0.ty.range()
+                        ranged_here[n_] = t_
         # Houdini over the rule-supplied candidate invariants
         cands = []
         for label, fn in self.loop_invariants:
@@ -1068,6 +1081,8 @@ class Walker:
             if lost:
                 for n_ in lost:
                     del keep_ty[n_]
+                    if n_ in ranged_here:
+                        self.P.ranges.pop(ranged_here.pop(n_), None)
                     vh = head.env[n_]
                     head.env[n_] = Num(vh.lin, isfloat=vh.isfloat, ty=None)
                 continue
@@ -1120,6 +1135,9 @@ class Walker:
                 lo = self.P.lo(lp.start)
                 hi = self.P.hi(lp.stop - 1)
                 self.P.ranges[t] = (lo, hi)
+                # an empty range on this path (stop <= start entailed): the body never runs here
+                if step.k == 1 and self.P.prove_le0(lp.stop - lp.start, b.facts[:-2]):
+                    b.dead = True
             if lp.var:
                 b.env[lp.var] = Num(i)
         elif lp.kind == "iter":
